@@ -828,3 +828,111 @@ def _spelling_ob(tname):
 
 for _t in TEMPLATES:
     _spelling_ob(_t)
+
+
+# ---------------------------------------------------------------------------------------
+# O7: the same program with one statement continued over two physical lines, read by the REAL reader: the entity tree
+# does not depend on where and how the statement is broken
+# ---------------------------------------------------------------------------------------
+PHYS_PROGRAM = ["module shapes_m", "implicit none", "type, public :: shape_t", "real :: width = 1.0, height = 2.0", "end type shape_t",
+                "character(len=11), parameter :: greeting = 'hello world'", "contains",
+                "integer function twice(n)", "integer, intent(in) :: n", "twice = 2 * n", "end function twice",
+                "pure subroutine scale_by(s, factor)", "type(shape_t), intent(inout) :: s", "real, intent(in) :: factor", "end subroutine scale_by",
+                "end module shapes_m"]
+# (statement index, index of the blank at which the statement is broken); blanks inside the character literal included
+BREAKS = [(i, j) for i, s_ in enumerate(PHYS_PROGRAM) for j, c in enumerate(s_) if c == " "]
+# how the two halves L and R (the blank between them dropped) are written; each keeps exactly the one blank as separator
+STYLES = [
+    ("blank before the trailing &", lambda L, R: [L + " &", "      " + R]),
+    ("blank before the trailing &, leading & directly before the text", lambda L, R: [L + " &", "&" + R]),
+    ("blank after the leading &", lambda L, R: [L + "&", "   & " + R]),
+    ("comment after the trailing &", lambda L, R: [L + " & ! to be continued", "&" + R]),
+    ("comment line between the halves", lambda L, R: [L + " &", "! a comment line", "   &" + R]),
+    ("not broken", lambda L, R: [L + " " + R, "! filler"]),
+]
+# inside a literal the next line must start with & and no comment may follow the trailing & (styles 0 and 3 are not valid there)
+_IN_LITERAL = {(i, j) for (i, j) in BREAKS if PHYS_PROGRAM[i][:j].count("'") % 2 == 1}
+
+
+def _phys_lines(brk, style):
+    i, j = brk
+    s_ = PHYS_PROGRAM[i]
+    halves = dict(STYLES)[style](s_[:j], s_[j + 1:])
+    while len(halves) < 3:
+        halves.append("! filler")
+    return halves
+
+
+def _phys_program(brk, style_lines):
+    i = brk[0]
+    return PHYS_PROGRAM[:i] + list(style_lines) + PHYS_PROGRAM[i + 1:]
+
+
+def _phys_signature(p):
+    return tree_signature(p.files[0])
+
+
+def replay_phys_spelling(w):
+    import ford.sourceform as sf
+    res = []
+    for lines in (w["lines"], PHYS_PROGRAM):
+        old = sf.namelist
+        sf.namelist = sf.NameSelector()
+        try:
+            p = _parserh.project_concrete({"a.f90": list(lines)}, correlate=False, physical=("a.f90",))
+            res.append(_phys_signature(p))
+        except Exception as e:  # noqa - FORD failing on a valid program is the violation
+            return True, {"physical lines": w["lines"], "ford_raised": f"{type(e).__name__}: {e}"}
+        finally:
+            sf.namelist = old
+    return res[0] != res[1], {"physical lines": w["lines"], "first_difference": _first_diff(res[0], res[1])}
+
+
+@obligation("C01", "O7.spelling-independence.continuation-lines", engine="SX(CV)", timeout=3000)
+def phys_spelling(ctx):
+    """one statement of a module (type, components with initial values, character constant, function, subroutine) broken at a symbolic
+    blank in a symbolic continuation style and read by the real FortranReader: same entity tree as the unbroken program"""
+    import ford.sourceform as sf
+    import ford.reader as rd
+
+    ctx.encode_fn(rd.FortranReader.__next__)
+    ctx.encode_fn(sf.FortranContainer.__init__)
+    ctx.encode_fn(sf.line_to_variables)
+    ctx.bounds.update({"statements": len(PHYS_PROGRAM), "break points": len(BREAKS), "continuation styles": len(STYLES)})
+    try:
+        base = _phys_signature(_parserh.project_concrete({"a.f90": list(PHYS_PROGRAM)}, correlate=False, physical=("a.f90",)))
+    except Exception as e:  # noqa
+        ctx.report(f"unbroken program: parser raised {type(e).__name__}: {e}", {"lines": list(PHYS_PROGRAM)}, replay_phys_spelling)
+        return
+
+    def h(E):
+        brk = _CV.choice(E, "break", BREAKS)
+        style = _CV.choice(E, "style", [s_[0] for s_ in STYLES])
+        E.assume(_choice.apply(lambda b, s_: not (tuple(b) in _IN_LITERAL and s_ in (STYLES[0][0], STYLES[3][0])), brk, style))
+        h.state = (brk, style)
+        b = brk.concretize() if hasattr(brk, "concretize") else brk   # the program's shape depends on the statement broken
+        halves = _choice.apply(lambda s_: tuple(_phys_lines(b, s_)), style)
+        lines = _phys_program(b, [halves[0], halves[1], halves[2]])
+        h.lines = lines
+        try:
+            sig = _parserh.project({"a.f90": lines}, correlate=False, physical=("a.f90",), post=_phys_signature)
+        except Exception as e:  # noqa - FORD must not fail on valid input
+            E.reachable("raised")
+            E.require(False, f"parser raised {type(e).__name__} on a valid spelling")
+            return
+        E.reachable("parsed")
+        E.require(_choice.apply(lambda s_: s_ == base, sig), "entity tree depends on how a statement is continued")
+
+    E = _sym.Engine(ctx, max_paths=50000, incremental=True)
+    found = E.explore(h)
+    seen = set()
+    for (label, m, pc), A in list(zip(found, E.autosnaps)):
+        if label in seen:
+            continue
+        seen.add(label)
+        ctx.report(label, {"lines": [_choice.value_in_model(m, x) for x in A["lines"]]}, replay_phys_spelling)
+    if E.reached.get("parsed"):
+        ctx.twins += 1
+    else:
+        ctx.inconclusive.append("vacuity: parser never completed")
+    ctx.sample({"paths": E.paths})
